@@ -5,7 +5,8 @@ Decided (see DESIGN.md section 3, C01):
          normal path; add() only inserts values returned by bind()/bind_all(); bind()s return
          BoundRoute(...); every normal path of BoundRoute.__init__ passes check_middlewares and
          make_middleware_chain, whose result is the only value ever stored in _execute, which is the
-         callable execute() injects into; the preprovided set is url | builtins | resources;
+         callable execute() injects into; the preprovided set is url | builtins | resources; execute() offers the whole of
+         self.resources and passes its call-time parameters on unfiltered (what binding counted as available is there per request);
   R01.b  unresolved => NameError (three make_chain results, two 'next' tests); the NameError is what the caller gets:
          building its message cannot itself raise (every % / .format gets the number of values it takes -- a tuple
          operand of run-time length, followed through make_chain's return, is spread over the conversions);
@@ -251,6 +252,7 @@ def run(rep):
     rep.rule('R01.f', 'sequence normal forms: both consumers see funcs++[final]; codegen recursion is aligned')
     g = rep.guard
     g(check_eager_binding, rep, 'R01.a')
+    g(chain.check_execute_offers_provided, rep, 'R01.a')
     g(chain.check_unresolved_raises, rep, 'R01.b')
     g(chain.check_chain_argspec, rep, 'R01.c')
     g(chain.check_make_chain, rep, 'R01.c', 'R01.f')
